@@ -136,12 +136,13 @@ type PathSum struct {
 	capped       bool
 	noInline     map[*ssa.Function]bool
 	inlineLoops  map[*ssa.Function]bool
-	asEvents     map[*ssa.Function]string // extra per-run event functions (summarised callees)
-	inlinePkgs   map[string]bool          // additional packages whose functions are inlined
-	alsoRelevant []string                 // additional substrings that make a branch condition a recorded predicate
-	trackLoads   bool                     // atomic Load methods become AtomicLoad(addr) events with their result symbol
-	trackRanges  bool                     // every map-range step becomes a RangeNext(map, element) event
-	trackLinks   bool                     // link getters become NodeRead events with their own result symbols (shape analysis)
+	asEvents     map[*ssa.Function]string   // extra per-run event functions (summarised callees)
+	eventExtra   map[*ssa.Function][]string // constant arguments appended to the event of a summarised callee
+	inlinePkgs   map[string]bool            // additional packages whose functions are inlined
+	alsoRelevant []string                   // additional substrings that make a branch condition a recorded predicate
+	trackLoads   bool                       // atomic Load methods become AtomicLoad(addr) events with their result symbol
+	trackRanges  bool                       // every map-range step becomes a RangeNext(map, element) event
+	trackLinks   bool                       // link getters become NodeRead events with their own result symbols (shape analysis)
 	roles        *psRoles
 	maxSeen      int
 }
@@ -156,7 +157,7 @@ type psRoles struct {
 }
 
 func newPathSum(cx *Ctx) *PathSum {
-	ps := &PathSum{cx: cx, funcs: map[string]*ssa.Function{}, closures: map[string]*psClosure{}, fresh: map[string][]string{}, maxDepth: 9, loopBound: 1, pathCap: 30000, noInline: map[*ssa.Function]bool{}, inlineLoops: map[*ssa.Function]bool{}, asEvents: map[*ssa.Function]string{}}
+	ps := &PathSum{cx: cx, funcs: map[string]*ssa.Function{}, closures: map[string]*psClosure{}, fresh: map[string][]string{}, maxDepth: 9, loopBound: 1, pathCap: 30000, noInline: map[*ssa.Function]bool{}, inlineLoops: map[*ssa.Function]bool{}, asEvents: map[*ssa.Function]string{}, eventExtra: map[*ssa.Function][]string{}}
 	if cx.Tier == "thorough" {
 		ps.maxDepth = 12
 		ps.loopBound = 2
